@@ -457,4 +457,97 @@ example : parseStartTag 0 pyLower ⟨some BS.Gen.defaultCdataListAttributes, .ht
     [(ofS "rel", some (ofS "x")), (ofS "id", some (ofS "p q")), (ofS "rel", some (ofS " y\tz "))]
     = .ok ⟨.html, 1, [(ofS "rel", .list 1 [ofS "y", ofS "z"]), (ofS "id", .str (ofS "p q"))]⟩ := by decide +kernel
 
+/-! ## histories: every attribute owns its value
+
+The documented meaning has no sharing between attributes: the state of a session is the list of tags made so far, each
+with its own values. The code refines this only if it never hands the same list object to two attributes (the harness
+checks object identity and replays in-place changes). -/
+
+/-- Changing one attribute's list in place (`tag_i[k].append(…)`, `.remove`, `.clear`, `.sort`, `+=`, …) changes that
+    value by the list operation and **nothing else**: every other attribute of every tag made so far — same document,
+    another document of the same builder, `new_tag` results, copies — keeps its value; names, dictionary classes and key
+    order stay. -/
+theorem mutate_leaves_others_unchanged (md : Nat) (lower : PStr → PStr) (b : BuilderCfg) (st : Hist) (i : Nat)
+    (k : PStr) (op : ListOp) :
+    ∃ st', histStep md lower b st (.mutate i k op) = .ok st' ∧ st'.length = st.length ∧
+      (∀ j k', (j ≠ i ∨ k' ≠ k) → attrAt st' j k' = attrAt st j k') ∧
+      attrAt st' i k = (attrAt st i k).map (mutateValue op) ∧
+      (∀ j : Nat, (st'[j]?).map (fun (p : PStr × TagAttrs) => (p.1, p.2.cls, p.2.listCls, keys p.2.items))
+          = (st[j]?).map (fun (p : PStr × TagAttrs) => (p.1, p.2.cls, p.2.listCls, keys p.2.items))) := by
+  refine ⟨_, rfl, length_modifyAt _ _ _, ?_, ?_, ?_⟩
+  · intro j k' h
+    simp only [attrAt, getElem?_modifyAt]
+    by_cases hj : j = i
+    · subst hj
+      have hk : k' ≠ k := by rcases h with h | h; exact absurd rfl h; exact h
+      cases st[j]? with
+      | none => simp
+      | some p => simp [mutateTag_get_other _ _ _ _ hk]
+    · simp [hj]
+  · simp only [attrAt, getElem?_modifyAt, if_true]
+    cases st[i]? with
+    | none => simp
+    | some p => simp [mutateTag_get_self]
+  · intro j
+    simp only [getElem?_modifyAt]
+    by_cases hj : j = i
+    · subst hj
+      cases st[j]? with
+      | none => simp
+      | some p =>
+        obtain ⟨h1, h2, h3⟩ := mutateTag_cls p.2 k op
+        simp [h1, h2, h3]
+    · simp [hj]
+
+example : histStep 0 pyLower ⟨some BS.Gen.defaultCdataListAttributes, .plain, 1⟩
+    [(ofS "p", ⟨.plain, 1, [(ofS "class", .list 1 [ofS "a", ofS "b"])]⟩),
+     (ofS "p", ⟨.plain, 1, [(ofS "class", .list 1 [ofS "a", ofS "b"])]⟩)] (.mutate 0 (ofS "class") (.append (ofS "x")))
+    = .ok [(ofS "p", ⟨.plain, 1, [(ofS "class", .list 1 [ofS "a", ofS "b", ofS "x"])]⟩),
+           (ofS "p", ⟨.plain, 1, [(ofS "class", .list 1 [ofS "a", ofS "b"])]⟩)] := by decide +kernel
+
+/-- Making another tag — a later start tag (same or later document), `new_tag`, a copy — leaves every tag made before
+    exactly as it was. -/
+theorem creation_leaves_earlier_tags_unchanged (md : Nat) (lower : PStr → PStr) (b : BuilderCfg) (st st' : Hist)
+    (s : Step) (hs : (∃ n a, s = .parse n a) ∨ (∃ n d, s = .newTag n d) ∨ (∃ i, s = .copy i))
+    (h : histStep md lower b st s = .ok st') : ∀ j, j < st.length → st'[j]? = st[j]? := by
+  intro j hj
+  have key : ∀ (r : Res TagAttrs) (n : PStr),
+      (r.bind fun t => Res.ok (st ++ [(n, t)])) = .ok st' → st'[j]? = st[j]? := by
+    intro r n hr
+    cases r with
+    | valueError => simp [Res.bind] at hr
+    | ok t =>
+      simp only [Res.bind, Res.ok.injEq] at hr
+      subst hr
+      exact List.getElem?_append_left hj
+  rcases hs with ⟨n, a, rfl⟩ | ⟨n, d, rfl⟩ | ⟨i, rfl⟩
+  · exact key _ _ h
+  · exact key _ _ h
+  · simp only [histStep] at h
+    cases hi : st[i]? with
+    | none => simp only [hi, Res.ok.injEq] at h; subst h; rfl
+    | some p => simp only [hi] at h; exact key _ _ h
+
+/-- A start tag parsed *after* any history — earlier documents of the same builder, in-place changes to their lists —
+    gets the same attributes as if it were the first thing the builder ever saw: the documented tokens of its own values. -/
+theorem later_parse_independent_of_history (md : Nat) (lower : PStr → PStr) (m : CdataMap) (hm : m ≠ [])
+    (cls : DictClass) (lc : Nat) (st1 st2 : Hist) (name : PStr) (attrs : List (PStr × Option PStr)) :
+    ∃ t, histStep md lower ⟨some m, cls, lc⟩ st1 (.parse name attrs) = .ok (st1 ++ [(name, t)]) ∧
+         histStep md lower ⟨some m, cls, lc⟩ st2 (.parse name attrs) = .ok (st2 ++ [(name, t)]) ∧
+         ∀ k, dictGet t.items k = (valsOf attrs k).getLast?.map
+           (fun s => if isMulti m lower name k then .list lc (splitWs s) else .str s) := by
+  obtain ⟨t, h1, _, _, _, h5⟩ := parsed_start_tag md lower m hm cls lc name attrs
+  exact ⟨t, by simp [histStep, h1, Res.bind], by simp [histStep, h1, Res.bind], h5⟩
+
+/-- the in-place operations are the list operations of Python (`sort` orders by code point, stably for equal strings) -/
+theorem list_ops_examples :
+    applyListOp (.append [120]) [[97], [98]] = [[97], [98], [120]] ∧
+    applyListOp (.remove [97]) [[97], [98], [97]] = [[98], [97]] ∧
+    applyListOp .clear [[97]] = [] ∧
+    applyListOp .sort [[98], [97, 97], [97], [66]] = [[66], [97], [97, 97], [98]] ∧
+    applyListOp (.iadd [[99], [100]]) [[97]] = [[97], [99], [100]] ∧
+    applyListOp .reverse [[97], [98]] = [[98], [97]] ∧
+    applyListOp .pop [[97], [98]] = [[97]] ∧
+    applyListOp (.insert0 [120]) [[97]] = [[120], [97]] := by decide
+
 end BS.Props.C17
